@@ -1110,7 +1110,7 @@ End Proto.
 From M Require Import LockIO.
 
 Lemma macro_go_is_run : forall tab cfg fuel first t (g : cgstate),
-  exists j, macro_go tab cfg fuel first t g = run (c_start tab) (c_resume tab (cfg_hier cfg)) c_ret c_reg cfg (repeat t j) g.
+  exists j, macro_go tab cfg fuel first t g = run (c_start tab) (c_resume tab) c_ret c_reg cfg (repeat t j) g.
 Proof.
   intros tab cfg. induction fuel as [|f IH]; intros first t g; simpl.
   - exists 0. reflexivity.
@@ -1122,7 +1122,7 @@ Proof.
 Qed.
 
 Lemma macro_run_is_run : forall tab cfg msched (g : cgstate),
-  exists sched, macro_run tab cfg msched g = run (c_start tab) (c_resume tab (cfg_hier cfg)) c_ret c_reg cfg sched g.
+  exists sched, macro_run tab cfg msched g = run (c_start tab) (c_resume tab) c_ret c_reg cfg sched g.
 Proof.
   intros tab cfg. induction msched as [|t r IH]; intro g; simpl.
   - exists []. reflexivity.
